@@ -49,6 +49,15 @@ def find_sub(mod, name):
 
 # ============================================================================= child
 
+_CASELOG = os.environ.get("VERIF_CASELOG")
+
+
+def _caselog(case, tally, before, outcome):
+    new = sorted(k for k, v in tally.classes.items() if v != before.get(k, 0))
+    with open(_CASELOG + f".{os.getpid()}", "a") as f:
+        f.write(json.dumps({"digest": digest(case), "outcome": outcome, "classes": new, "case": core.brief(case)}) + "\n")
+
+
 class _Fail:
     def __init__(self):
         self.case = None
@@ -62,8 +71,14 @@ def _run_one(sc, case, tally, fail):
     if fail.error is not None:
         return
     try:
+        if _CASELOG:
+            before = dict(tally.classes)
         sc.execute(case, tally)
-    except Discard:
+        if _CASELOG:
+            _caselog(case, tally, before, "ok")
+    except Discard as d:
+        if _CASELOG:
+            _caselog(case, tally, before, "discard:" + d.reason)
         return
     except Violation as v:
         fail.case, fail.violation = case, v
